@@ -21,7 +21,7 @@ RULE = ("operation sequences over a pool of 3 names and an alphabet of 42 operat
         "/ 4 (thorough) from the empty set; the bytes-name twins of those operations (every "
         "name handed over as UTF-8 bytes): ALL sequences up to length 2 over both alphabets "
         "and all of length 3 (4) whose last operation is a twin; plus random sequences up to "
-        "length 25 mixing both; plus pairs of live sets (two fresh ones, or two loaded from the "
+        "length 25 mixing both; ALL sequences up to length 3 over the names {a, empty string}; plus pairs of live sets (two fresh ones, or two loaded from the "
         "SAME Parser result of a saved script with disabled filters) receiving 3-14 operations "
         "alternately: each follows its own model and the untouched one must not change. "
         "Non-trivial = sequence in which at least one operation changed the set; distinct = "
@@ -34,10 +34,12 @@ ASSUMPTIONS = [
 EXHAUSTIVE = {"quick": True, "thorough": True}
 FLOORS = {
     "quick": {"sequences": 70000, "sequences-with-bytes-names": 70000,
-              "pair-sequences:same-parser-result": 1800, "pair-sequences:fresh": 1800, "monitor:invariant.names_unique": 200000,
+              "pair-sequences:same-parser-result": 1800, "pair-sequences:fresh": 1800,
+              "sequences-with-the-empty-name": 10000, "monitor:invariant.names_unique": 200000,
               "lockstep-steps": 150000},
     "thorough": {"sequences": 3000000, "sequences-with-bytes-names": 3000000,
-                 "pair-sequences:same-parser-result": 70000, "pair-sequences:fresh": 70000, "monitor:invariant.names_unique": 9000000,
+                 "pair-sequences:same-parser-result": 70000, "pair-sequences:fresh": 70000,
+                 "sequences-with-the-empty-name": 10000, "monitor:invariant.names_unique": 9000000,
                  "lockstep-steps": 7000000},
 }
 SHARD_TIMEOUT = {"quick": 600, "thorough": 3000}
@@ -45,7 +47,7 @@ SHARD_TIMEOUT = {"quick": 600, "thorough": 3000}
 NAMES = ["a", "b", "c"]
 
 
-def alphabet():
+def alphabet(NAMES=NAMES):
     ops = []
     for n in NAMES:
         ops.append(("add", n))
@@ -75,6 +77,8 @@ def alphabet():
 
 
 ALPHA = alphabet()
+# the empty string is a legal name too (and falsy: `name or default` pitfalls)
+ALPHA_E = alphabet(["a", ""])
 # the same operations with every name handed over as UTF-8 bytes (the API takes both)
 ALPHA_B = [fl.bytes_twin(op) for op in ALPHA]
 
@@ -95,6 +99,10 @@ def plan(tier, seed):
         n = len(ALPHA) ** length
         for s, e in split(n, 16 if length == 3 else 96):
             shards.append({"w": "enum-b", "len": length, "range": [s, e]})
+    for length in range(1, 4):
+        n = len(ALPHA_E) ** length
+        for s, e in split(n, 1 if length < 3 else 4):
+            shards.append({"w": "enum-e", "len": length, "range": [s, e]})
     npair = 4000 if tier == "quick" else 150000
     for i, (s, e) in enumerate(split(npair, 8 if tier == "quick" else 32)):
         shards.append({"w": "pairs", "n": e - s, "rs": seed * 7919 + 3 + i})
@@ -406,6 +414,21 @@ def run_shard(tier, shard, res: Result):
             res.case(repr(ops), nontrivial=ch)
             if idx % 20011 == 0:
                 res.sample({"workload": "enum", "sequence": [list(o) for o in ops]}, 2)
+    elif shard["w"] == "enum-e":
+        n = len(ALPHA_E)
+        s, e = shard["range"]
+        for idx in range(s, e):
+            x = idx
+            ops = []
+            for _ in range(shard["len"]):
+                ops.append(ALPHA_E[x % n])
+                x //= n
+            if idx % 2:
+                ops = [fl.bytes_twin(o) if o[0] == "replace" else o for o in ops]
+            ch = run_sequence(ops, res)
+            res.count("sequences")
+            res.count("sequences-with-the-empty-name")
+            res.case(repr(ops), nontrivial=ch)
     elif shard["w"] == "pairs":
         rng = random.Random(shard["rs"])
         for i in range(shard["n"]):
